@@ -1,6 +1,7 @@
 package memo
 
 import (
+	"github.com/aperturerobotics/util/verifhook"
 	"sync/atomic"
 )
 
@@ -13,9 +14,11 @@ func MemoizeFunc[T any](fn func() (T, error)) func() (T, error) {
 	return func() (T, error) {
 		if !started.Swap(true) {
 			defer close(done)
+			verifhook.Atomic("memo.won", &started)
 			result, doneErr = fn()
 			return result, doneErr
 		} else {
+			verifhook.Atomic("memo.lost", &started)
 			<-done
 			return result, doneErr
 		}
